@@ -98,6 +98,10 @@ func GetAllSentinelInfo(context db.DB) []*SentinelInfo {
 			common.DealWithErr(iterator.Error())
 			break
 		}
+		// entries deleted by a rollback are still listed by the iterator, with an empty value
+		if len(iterator.Value()) == 0 {
+			continue
+		}
 		sentinelInfoList = append(sentinelInfoList, parseSentinelInfo(iterator.Value()))
 	}
 	return sentinelInfoList
@@ -112,6 +116,10 @@ func IterateSentinelEntries(context db.DB, f func(*SentinelInfo) error) error {
 			break
 		}
 
+		// entries deleted by a rollback are still listed by the iterator, with an empty value
+		if len(iterator.Value()) == 0 {
+			continue
+		}
 		sentinelInfo := parseSentinelInfo(iterator.Value())
 		if err := f(sentinelInfo); err != nil {
 			return err
